@@ -15,7 +15,7 @@ import tempfile
 import time
 
 ROOT = os.environ.get("VERIF_ROOT") or os.path.dirname(os.path.dirname(os.path.abspath(__file__)))
-REPO = "/repo"
+REPO = os.environ.get("VF_REPO", "/repo")   # experiments on a scratch worktree; registered commands use /repo
 VPY = os.path.join(ROOT, ".venv", "bin", "python")
 PLAIN = "/venv/bin/python"
 NPROC = int(os.environ.get("VF_JOBS", "16"))
